@@ -249,6 +249,8 @@ def run(ctx):
     mal = malformed(ctx, rng, exe, items)
     # real threads
     thr = threads(ctx, rng, exe, items, len(uni))
+    # end to end: derived types (incl. several instantiations of one generic) through TS::export_all_to
+    e2e = derived_histories(ctx, exe)
 
     ctx.finish_proof()
     ctx.coverage.update({
@@ -262,13 +264,56 @@ def run(ctx):
         "correspondence": {"histories": len(hs_all), "digest_chunks": nchunks, "suspects": len(suspects), "confirmed_breaks": len(corr_breaks)},
         "oracle": {"sets_with_several_histories": n_sets_multi, "histories_meeting_theorem_hypotheses": n_hyp,
                    "not_canonical": len(not_canonical), "order_dependent_sets": len(confl_viol), "known_class_sets": {k: 1 for k in kf_seen}},
-        "malformed_stream": mal, "threads": thr,
+        "malformed_stream": mal, "threads": thr, "derived_types_end_to_end": e2e,
         "items_wf": dict(zip([i["ident"] for i in items], wf_flags or [])),
     })
     ctx.assumptions += [
         "file system modelled as: first touch of a path truncates (File::create), later writes overwrite in place from byte NOTE.len() without truncation",
         "real threads: the lock discipline is validated on recorded traces (yield points of cfg(ts_rs_verif)), not proved about the Rust code",
     ]
+
+
+def derived_histories(ctx, exe):
+    """The same property through the public entry points: types of harness/rt/universe.rs that share files (A, B, U2 in
+    shared.ts; three instantiations of the generic G in sub/generic/G.ts; D and C2, which reach them) exported with export_all_to into one
+    directory, in every order of every subset of size <= 3: the final tree is the same for every order, and every file
+    declares each name exactly once."""
+    import exportsm as sm
+    U = sm.Universe(exe)
+    roots = [i for i, t in enumerate(U.types) if t["out"] is not None and
+             (t["out"].endswith("shared.ts") or t["out"].endswith("G.ts") or t["rust"].endswith("::C2") or t["rust"].endswith("::D"))]
+    cases, keys = [], []
+    for k in (2, 3):
+        for sub in itertools.combinations(roots, k):
+            for perm in itertools.permutations(sub):
+                cases.append(dict(root="@R", cwd="@R/w/c", env=None, init=[], ops=[("export_all_to", t, "@R/out") for t in perm]))
+                keys.append(frozenset(sub))
+    if ctx.quick:
+        cases, keys = cases[:480], keys[:480]
+    real = sm.run_real(exe, sm.place(cases))
+    by_set, viol = {}, []
+    for c, key, (codes, files, _) in zip(cases, keys, real):
+        names = [U.types[o[1]]["rust"] for o in c["ops"]]
+        if set(codes) != {"O"}:
+            viol.append(dict(what="an export of a derived type failed", history=names, results=codes))
+            continue
+        for pth, content in files:
+            decl = re.findall(r"(?:^|\n)export type ([^ <=]+)", content)
+            dup = sorted({n for n in decl if decl.count(n) > 1})
+            if dup:
+                viol.append(dict(what="a shared file declares %s more than once" % ", ".join(dup), history=names, file=pth, content=content))
+        by_set.setdefault(key, []).append((names, files))
+    for key, runs in by_set.items():
+        ref = runs[0]
+        for names, files in runs[1:]:
+            if files != ref[1]:
+                viol.append(dict(what="the final files depend on the order of the exports", history=names, reference_history=ref[0],
+                                 differing=[p for p, c in files if dict(ref[1]).get(p) != c][:4]))
+                break
+    sm.cleanup()
+    for v in viol[:1]:
+        ctx.fail(v["what"] + " (derived types, export_all_to)", dict(kind="property-violated", note="%d violations" % len(viol), **v))
+    return {"histories": len(cases), "sets": len(by_set), "roots": [U.types[i]["rust"] for i in roots], "violations": len(viol)}
 
 
 def malformed(ctx, rng, exe, items):
